@@ -69,7 +69,7 @@ package crypto
 //@ cfunc Fr_write_bytes props C05 C09
 //@ requires a != nil && valid(out, 32)
 //@ assigns out[0:32]
-//@ ensures be32(out[0:32]) == old(*a)
+//@ ensures be32(out[0:32]) == *a
 
 //@ cfunc G2_check_log pure props C07 C09
 //@ requires x != nil && y != nil
@@ -109,6 +109,41 @@ package crypto
 //@ requires sum != nil && y_len >= 0 && valid(y, y_len)
 //@ assigns *sum
 
+//@ cfunc E2_sum_vector props C04 C09
+//@ requires sum != nil && y_len >= 0 && valid(y, y_len)
+//@ assigns *sum
+//@ loop 1 invariant 0 <= i && i <= y_len
+//@ loop 1 assigns *sum, i
+
+//@ cfunc E2_subtract_vector props C04 C09
+//@ requires res != nil && x != nil && y_len >= 0 && valid(y, y_len)
+//@ assigns *res
+
+// (a typed-nil *pubKeyBLSBLS12381 inside a PublicKey cannot be built outside the package: the type is unexported)
+//@ pred noTypedNilKeys(ks) = forall(k, 0, len(ks), typeis(ks[k], *pubKeyBLSBLS12381) ==> unbox(ks[k], *pubKeyBLSBLS12381) != nil)
+//@ func AggregateBLSPublicKeys mode int props C01 C16 C17 C04 C09
+//@ requires noTypedNilKeys(keys)
+//@ assigns nothing
+//@ loop 1 invariant len(points) == i
+//@ ensures [empty] len(keys) == 0 ==> result0 == nil && result1 == errBLSAggregateEmptyList
+//@ ensures [identity-flag-is-cached-truthfully] result1 == nil ==> typeis(result0, *pubKeyBLSBLS12381) && fresh(unbox(result0, *pubKeyBLSBLS12381)) && pkWF(unbox(result0, *pubKeyBLSBLS12381))
+//@ ensures [error-class] result1 != nil ==> result0 == nil
+
+//@ func RemoveBLSPublicKeys mode int props C01 C16 C17 C04 C09
+//@ requires noTypedNilKeys(keysToRemove) && (typeis(aggKey, *pubKeyBLSBLS12381) ==> unbox(aggKey, *pubKeyBLSBLS12381) != nil)
+//@ assigns nothing
+//@ loop 1 invariant len(pointsToSubtract) == i
+//@ ensures [nothing-to-remove] len(keysToRemove) == 0 && typeis(aggKey, *pubKeyBLSBLS12381) ==> result0 == aggKey && result1 == nil
+//@ ensures [identity-flag-is-cached-truthfully] result1 == nil && len(keysToRemove) > 0 ==> typeis(result0, *pubKeyBLSBLS12381) && fresh(unbox(result0, *pubKeyBLSBLS12381)) && pkWF(unbox(result0, *pubKeyBLSBLS12381))
+//@ ensures [error-class] result1 != nil ==> result0 == nil
+
+//@ func initBLS12381 mode int props C01 C16 C17
+//@ assigns everything
+//@ ensures [identity-key-is-flagged] g2PublicKey.isIdentity && e2IsInf(g2PublicKey.point)
+
+//@ cfunc types_sanity nobody
+//@ assigns nothing
+
 // ---------------------------------------------------------------------------------------------
 // small Go wrappers around the C glue
 
@@ -144,14 +179,19 @@ package crypto
 //@ assigns *res
 //@ ensures *res == g2mulgen(old(*expo))
 
-//@ func (*scalar).isZero mode int props C09
+//@ func (*scalar).isZero mode int props C01 C16 C17 C09
 //@ requires x != nil
 //@ assigns nothing
+//@ ensures result == (*x == 0)
 
 //@ func (*pointE2).isInfinity mode int props C05 C09
 //@ requires p != nil
 //@ assigns nothing
 //@ ensures result == e2IsInf(*p)
+
+//@ func isG1Compressed mode int props C05
+//@ assigns nothing
+//@ ensures result
 
 //@ func isG2Compressed mode int props C05
 //@ assigns nothing
@@ -320,10 +360,18 @@ package crypto
 //@ ensures result != nil && fresh(result) && result.pk == nil
 //@ ensures x != nil ==> result.scalar == *x
 
-//@ func newPubKeyBLSBLS12381 mode int props C04 C09
+// Representation invariant of BLS public key objects: the cached flag says whether the point is the identity.
+// Every function of the package that creates or writes a pubKeyBLSBLS12381 establishes it (the list of such
+// functions is computed from the code: see `invariant-writers`), so it holds for every key a user can hold.
+//@ pred pkWF(k) = k.isIdentity == e2IsInf(k.point)
+//@ pred frOK(x) = 0 <= x && x < FrR()
+//@ invariant-writers pubKeyBLSBLS12381 props C01 C16 C17
+
+//@ func newPubKeyBLSBLS12381 mode int props C01 C16 C17 C04 C09
 //@ assigns nothing
 //@ ensures result != nil && fresh(result)
 //@ ensures p != nil ==> result.point == *p
+//@ ensures [identity-flag-is-cached-truthfully] p != nil ==> pkWF(result)
 
 // ---------------------------------------------------------------------------------------------
 // Feldman VSS with qualification (one dealer instance)
@@ -619,7 +667,7 @@ package crypto
 //@ cfunc Fp_write_bytes props C05 C09
 //@ requires a != nil && valid(out, 48)
 //@ assigns out[0:48]
-//@ ensures be48(out[0:48]) == old(*a)
+//@ ensures be48(out[0:48]) == *a
 
 // ZCash compressed G1 format (IETF pairing-friendly-curves draft, appendix C): byte 0 carries the
 // C (compression), I (infinity) and S (sign) flags in its three top bits.
@@ -999,21 +1047,25 @@ package crypto
 //@ assigns dest[0:48]
 //@ ensures g1encOf(dest, old(*a))
 
+// (a Go []byte never overlaps a scalar; the untyped cell model needs it said)
 //@ func writeScalar mode int props C05 C09
-//@ requires x != nil && len(dest) >= 32
+//@ requires x != nil && len(dest) >= 32 && obj(dest) != obj(x)
 //@ assigns dest[0:32]
 //@ ensures be32(dest[0:32]) == old(*x)
 
-//@ func (*prKeyBLSBLS12381).PublicKey mode int props C12 C16 C09
-//@ requires sk != nil
+//@ pred skInv(sk) = frOK(sk.scalar) && (sk.pk != nil ==> pkWF(sk.pk) && sk.pk.point == g2mulgen(sk.scalar))
+//@ func (*prKeyBLSBLS12381).PublicKey mode int props C01 C17 C12 C16 C09
+//@ requires sk != nil && skInv(sk)
 //@ assigns sk.pk
+//@ ensures [identity-flag-is-cached-truthfully] skInv(sk) && pkWF(sk.pk)
 //@ ensures result != nil && typeis(result, *pubKeyBLSBLS12381) && unbox(result, *pubKeyBLSBLS12381) == sk.pk && sk.pk != nil && unchanged(sk.scalar)
 //@ ensures [public-key-is-sk-times-g2] old(sk.pk) == nil ==> sk.pk.point == g2mulgen(sk.scalar) && fresh(sk.pk)
 //@ ensures [cache] old(sk.pk) != nil ==> sk.pk == old(sk.pk)
 
-//@ func (*prKeyBLSBLS12381).computePublicKey mode int props C12 C09
-//@ requires sk != nil
+//@ func (*prKeyBLSBLS12381).computePublicKey mode int props C01 C16 C17 C12 C09
+//@ requires sk != nil && frOK(sk.scalar)
 //@ assigns sk.pk
+//@ ensures [identity-flag-is-cached-truthfully] pkWF(sk.pk)
 //@ ensures sk.pk != nil && fresh(sk.pk) && sk.pk.point == g2mulgen(sk.scalar) && unchanged(sk.scalar)
 
 //@ cfunc Fr_is_zero nobody pure
@@ -1022,7 +1074,7 @@ package crypto
 //@ ensures result == (*a == 0)
 
 //@ func BLSGeneratePOP mode int props C16 C09
-//@ requires sk != nil && (typeis(sk, *prKeyBLSBLS12381) ==> unbox(sk, *prKeyBLSBLS12381) != nil)
+//@ requires sk != nil && (typeis(sk, *prKeyBLSBLS12381) ==> unbox(sk, *prKeyBLSBLS12381) != nil && skInv(unbox(sk, *prKeyBLSBLS12381)))
 //@ assigns everything
 //@ ensures [not-bls-key] !typeis(sk, *prKeyBLSBLS12381) ==> result1 == errNotBLSKey && len(result0) == 0
 //@ ensures [pop-is-a-signature-under-the-pop-suite] typeis(sk, *prKeyBLSBLS12381) ==> result1 == nil && len(result0) == 48 && exists(d, g1encOf(result0, e1Mul(h2cd(hout(kmacCfg(seqid("BLS_POP_BLS12381G1_XOF:KMAC128_SSWU_RO_POP_"), seqid("H2C"), 128), d)), unbox(sk, *prKeyBLSBLS12381).scalar)))
@@ -1087,7 +1139,7 @@ package crypto
 //@ ensures [rejects] !(len(privateKeyBytes) == 32 && 1 <= be32(privateKeyBytes[0:32]) && be32(privateKeyBytes[0:32]) < FrR()) ==> result0 == nil && iserr(result1, *invalidInputsError)
 //@ ensures [accepts] len(privateKeyBytes) == 32 && 1 <= be32(privateKeyBytes[0:32]) && be32(privateKeyBytes[0:32]) < FrR() ==> result1 == nil && typeis(result0, *prKeyBLSBLS12381) && fresh(unbox(result0, *prKeyBLSBLS12381)) && unbox(result0, *prKeyBLSBLS12381).scalar == be32(privateKeyBytes[0:32]) && unbox(result0, *prKeyBLSBLS12381).pk == nil
 
-//@ func (*blsBLS12381Algo).decodePublicKey mode int props C05 C09
+//@ func (*blsBLS12381Algo).decodePublicKey mode int props C01 C16 C17 C05 C09
 //@ assigns nothing
 //@ ensures [rejects] !(len(publicKeyBytes) == 96 && g2canon(publicKeyBytes) && inG2(g2pt(publicKeyBytes))) ==> result0 == nil && iserr(result1, *invalidInputsError)
 //@ ensures [accepts-exactly-canonical-G2-encodings] len(publicKeyBytes) == 96 && g2canon(publicKeyBytes) && inG2(g2pt(publicKeyBytes)) ==> result1 == nil && typeis(result0, *pubKeyBLSBLS12381) && fresh(unbox(result0, *pubKeyBLSBLS12381)) && unbox(result0, *pubKeyBLSBLS12381).point == g2pt(publicKeyBytes) && unbox(result0, *pubKeyBLSBLS12381).isIdentity == e2IsInf(g2pt(publicKeyBytes))
